@@ -132,3 +132,6 @@ Definition linear_shift (a b : Q) : Q := (b + a) / (b - a).
 Definition linear_jac (a b : Q) : Q := 2 / (b - a).                  (* diffCanonicalTransform *)
 Definition fourier_canon (a b y : Q) : Q := (y - a) / (b - a).       (* rule_fourier *)
 Definition fourier_jac (a b : Q) : Q := 1 / (b - a).
+
+(* a function of the increment h that is bounded on |h| <= 1 (every polynomial remainder is) *)
+Definition bdd (g : Q -> Q) : Prop := exists B, 0 <= B /\ forall h, Qabs h <= 1 -> Qabs (g h) <= B.
